@@ -174,6 +174,9 @@ def auth_closure(prog, auth, ents):
     return out
 
 
+ALSO_PORTABLE = True
+
+
 def run(ctx, chk):
     prog = ctx.prog()
     cg = prog.callgraph()
